@@ -204,11 +204,19 @@ def run_impl(p):
             ra[i] = val
             return {"k": "obs", "rows": canon(ra), "lengths": canon([int(x) for x in ra.lengths]), "n_rows": canon(len(ra))}
         val = _py_value(p, vpool)
-        if p.get("mask") is not None:
-            mflat = np.array([b for r in p["mask"] for b in r], dtype=bool)
-            ra[RaggedArray(mflat, list(p["lens"]))] = val
-        else:
-            ra[ragidx.py_index(p["idx"], p.get("variant", 0))] = val
+        before = np.asarray(ra.ravel()).copy()
+        try:
+            if p.get("mask") is not None:
+                mflat = np.array([b for r in p["mask"] for b in r], dtype=bool)
+                ra[RaggedArray(mflat, list(p["lens"]))] = val
+            else:
+                ra[ragidx.py_index(p["idx"], p.get("variant", 0))] = val
+        except Exception:
+            # a refused assignment must leave the array as it was
+            now = np.asarray(ra.ravel())
+            if now.shape != before.shape or now.tobytes() != before.tobytes() or [int(x) for x in ra.lengths] != list(p["lens"]):
+                return {"k": "obs", "refused_but_changed": canon(ra)}
+            raise
         return {"k": "obs", "rows": canon(ra), "lengths": canon([int(x) for x in ra.lengths]), "n_rows": canon(len(ra))}
     return guarded(f)
 
